@@ -728,6 +728,21 @@ def check_band_mask(ctx, rule="R7-band-mask"):
 
 
 # ---------------------------------------------------------------------------- R6 assembly
+def finite_branch_lib(base):
+    """the assembly rules are decided on the branch where every statistic is finite (making them finite is then the identity; that it
+    happens on every path is C13's rule): np.isfinite is elementwise true, np.isnan / np.isinf elementwise false."""
+    def lib(I, name, args, kw, st, n):
+        if name in ("numpy.isfinite", "numpy.isnan", "numpy.isinf") and args and isinstance(args[0], (Arr, ArrParam, LocalArr, X)):
+            val = name == "numpy.isfinite"
+            a = args[0]
+            if isinstance(a, X): return val
+            A = lm.local_to_arr(a, st) if isinstance(a, LocalArr) else as_arr(a)
+            if A is None or is_opaque(A): return NotImplemented
+            return Arr(A.axes, val)
+        return base(I, name, args, kw, st, n)
+    return lib
+
+
 def check_assembly(ctx, rule="R6-assembly", only=None):
     setup()
     repo = ctx.repo
@@ -743,6 +758,7 @@ def check_assembly(ctx, rule="R6-assembly", only=None):
             if f.key == AN + ".plan": return plan
             return old(I_, f, args, kwargs, st, node)
         R.I.hooks["call"] = call2
+        R.I.hooks["lib"] = finite_branch_lib(window_lib)
         try:
             R.I.call_func(Func(fkey, fn), [me], {}, St(), None)
         except Unknown as ex:
